@@ -67,7 +67,22 @@ func (c *Config) Proxy(closing chan bool, cc io.ReadWriter, url *url.URL) error 
 	}
 	// The upstream connection belongs to this call: release it on every return path.
 	defer sc.Close()
-	if err := forwardPreface(sc, cc); err != nil {
+	// A client that stalls in the middle of its preface must not hold up proxy shutdown: closing the
+	// connections unblocks the pending read.
+	prefaced := make(chan struct{})
+	go func() {
+		select {
+		case <-closing:
+			sc.Close()
+			if closer, ok := cc.(io.Closer); ok {
+				closer.Close()
+			}
+		case <-prefaced:
+		}
+	}()
+	err = forwardPreface(sc, cc)
+	close(prefaced)
+	if err != nil {
 		return fmt.Errorf("initializing h2 with %v: %w", url, err)
 	}
 
